@@ -263,8 +263,24 @@ func extractLink(repo string, o *out) {
 			}
 			return true
 		})
+		// ... and Cleanup runs whenever the removed toxic has one: the innermost if around the call tests nothing but the result of the
+		// type assertion (not, say, whether the toxic happened to apply to this connection at its last start)
+		condOK := false
+		if cleanup != nil {
+			var inner *ast.IfStmt
+			ast.Inspect(fd.Body, func(n ast.Node) bool {
+				if is, ok := n.(*ast.IfStmt); ok && is.Body.Pos() <= cleanup.Pos() && cleanup.End() <= is.Body.End() {
+					inner = is // later (nested) matches overwrite earlier ones
+				}
+				return true
+			})
+			if inner != nil {
+				_, bare := inner.Cond.(*ast.Ident)
+				condOK = bare
+			}
+		}
 		if cleanup != nil && firstWrite != nil && firstGo != nil {
-			cbf = boolS(cleanup.End() < firstWrite.Pos() && cleanup.End() < firstGo.Pos() && retAfterClosed)
+			cbf = boolS(cleanup.End() < firstWrite.Pos() && cleanup.End() < firstGo.Pos() && retAfterClosed && condOK)
 		}
 	}
 	o.emit("remove_cleanup_before_flush", "", "bool", cbf, "true", "", "")
